@@ -290,7 +290,7 @@ def run(ctx):
                "thread goes next, and the order of simultaneous timers / deliveries, are still chosen at random")
     ctx.assume("eps = 0.05 s of virtual time: the driver re-arms the timeout up to 3 x 0.01 s when the request has not been sent yet")
     n = ctx.scale(3000, 150000)
-    budget = 14 if ctx.quick else 150      # CPU seconds of this worker (ctx.time_left), wall is capped at 4x
+    budget = 14 if ctx.quick else 130      # CPU seconds of this worker (ctx.time_left), wall is capped at 4x
     base = ctx.seed * 1000003 + (ctx.worker or 0) * 100003
     # budget by time, but never fewer histories than the floors need (a loaded machine must not turn the verdict inconclusive)
     at_least = 80 if ctx.quick else 400
